@@ -93,6 +93,9 @@ $(B)/$(1)/libengine.a: $$(ENGINE_OBJ_$(1))
 $(B)/$(1)/bin/econt $(B)/$(1)/bin/etl $(B)/$(1)/bin/erng: $(B)/$(1)/bin/%: $(B)/$(1)/engines/%.o $$(DETSIM_OBJ_$(1))
 	@mkdir -p $$(dir $$@)
 	$(CXX) $$(LDFLAGS_$(1)) -o $$@ $$^ $$(LIBS_$$*) -lpthread
+$(B)/$(1)/bin/efs: $(B)/$(1)/engines/efs.o $$(DETSIM_OBJ_$(1)) $(B)/$(1)/detsim/fsim.o
+	@mkdir -p $$(dir $$@)
+	$(CXX) $$(LDFLAGS_$(1)) -rdynamic -o $$@ $$^ -ldl -lpthread
 # whole-simulation engines
 $(B)/$(1)/bin/%: $(B)/$(1)/engines/%.o $$(DETSIM_OBJ_$(1)) $(B)/$(1)/libengine.a
 	@mkdir -p $$(dir $$@)
@@ -110,4 +113,4 @@ clean:
 
 # ---- setup: everything a fresh restore needs ---------------------------------
 .PHONY: setup
-setup: cont $(B)/small/bin/eion
+setup: cont $(B)/small/bin/eion $(B)/plain/bin/etl $(B)/plain/bin/efs $(B)/plain/bin/erng
